@@ -248,7 +248,13 @@ func H_C07_Pipeline(v *verifrt.T) {
 		}}
 		stop, done := make(chan bool, 1), make(chan bool, 1)
 		stop <- true // one-shot: finish the work, then stop
-		broker.Start(stop, done)
+		go broker.Start(stop, done)
+		// bounded liveness: the one-shot run ends before 200 timers have fired
+		// (poll delays, back-off sleeps, statistics tickers)
+		v.QuiesceTimers(200)
+		if len(done) == 0 {
+			v.Assert(false, "C07 the sender finishes its work: every file it transmitted is confirmed, marked done and the run ends")
+		}
 	}
 	k := v.Choose("crash-before-fs-call", v.Param("MAXK", 12)+1) // 0: no crash
 	crashed := false
